@@ -311,6 +311,10 @@ void OPN2::noteOn(size_t c, double tone)
     }
     hertz *= coef;
 
+    // The tone of a broken instrument can overflow the exp(): infinity never leaves the loops below
+    if(hertz > std::numeric_limits<double>::max())
+        return;
+
     size_t      chip;
     uint8_t     port;
     uint32_t    cc;
